@@ -43,7 +43,8 @@ impl Encoder {
         self.u8(prefix);
         let address_length_index = self.bytes.len();
         self.u8(0);
-        self.rr_address_with_prefix(address, prefix);
+        // RFC 3123 section 4: trailing zero octets are not sent.
+        self.rr_address_with_length(address, 0);
         self.set_address_length_index(apitem.negation, address_length_index)
     }
 
